@@ -152,7 +152,11 @@ class FuzzRun:
             self.count('rpcs_to_peers')
             if rec['isolated_t'] is not None:
                 self.count('rpcs_to_isolated_checked')
-                if self.l2.world.now > rec['isolated_t'] + TICK:
+                pushed_at = self.l2.stepping_pushed_at
+                if pushed_at is not None and pushed_at <= rec['isolated_t']:
+                    # queued before the isolation: the driver kept it longer than a real thread would have
+                    self.count('messages_queued_before_isolation')
+                elif self.l2.world.now > rec['isolated_t'] + TICK:
                     self.violate('C13/message-sent-to-isolated-peer',
                                  f"{ev['method']} sent to {puppet.nick} at vt={self.vt()}, isolated since "
                                  f"vt={round(rec['isolated_t'] - BASE_TIME, 3)}")
